@@ -357,6 +357,22 @@ func (u *Unit) frameCheck(fr *Frame, st *State, pc Term, p PtrV, pos token.Pos) 
 	}
 }
 
+// frameCheckMap: a write to (or delete from) a map inside a function under contract must hit a map allocated
+// by this call or a map type listed in its assigns clause (mapof(M) / mapobj(expr)).
+func (u *Unit) frameCheckMap(fr *Frame, pc Term, mt *types.Map, mref Term, pos token.Pos) {
+	if u.spec == nil || u.discov > 0 || u.spec.Opts["frame"] == "off" || !u.spec.HasAssigns && len(u.spec.Assigns) == 0 && false {
+		return
+	}
+	allowed := u.assignSet()
+	if allowed == nil {
+		return
+	}
+	if allowed[u.mapDomName(mt)] {
+		return
+	}
+	u.oblige(fr, "frame", pos, "map write", pc, Ge(mref, u.entrySt.alloc))
+}
+
 func (u *Unit) frameCheckComps(fr *Frame, pc Term, comps []compRef, pos token.Pos, callee string) {
 	if u.spec == nil || u.discov > 0 || u.spec.Opts["frame"] == "off" {
 		return
